@@ -72,6 +72,8 @@ def cases(draw):
                                    st.sampled_from(["PRINT_DONE", "PRINT_CANCELLED", "PRINT_CANCELLING", "PRINT_FAILED", "ERROR", "PRINT_PAUSED", "PRINT_RESUMED"]).map(lambda n: ["event", n])),
                          min_size=1, max_size=5))
     base["prog"] = prog + tail
+    # the clear-after-print setting does not change what the hook owes the printer
+    base["config"] = dict(base["config"], clear_after_print=draw(st.booleans()))
     return base
 
 
